@@ -1,0 +1,44 @@
+//go:build verif
+
+package xrand
+
+import (
+	"context"
+
+	"github.com/bradenaw/juniper/iterator"
+	"github.com/bradenaw/juniper/stream"
+)
+
+// This file is only compiled with the "verif" build tag. It lets external verification harnesses run
+// the sampling algorithms with a random source of their own.
+
+// VerifRand is the random source the samplers use.
+type VerifRand interface {
+	Float64() float64
+	Intn(int) int
+	Shuffle(int, func(int, int))
+}
+
+// VerifShuffle is Shuffle with r as the random source.
+func VerifShuffle[T any](r VerifRand, a []T) { rShuffle(r, a) }
+
+// VerifSample is Sample with r as the random source.
+func VerifSample(r VerifRand, n int, k int) []int { return rSample(r, n, k) }
+
+// VerifSampleSlice is SampleSlice with r as the random source.
+func VerifSampleSlice[T any](r VerifRand, a []T, k int) []T { return rSampleSlice(r, a, k) }
+
+// VerifSampleIterator is SampleIterator with r as the random source.
+func VerifSampleIterator[T any](r VerifRand, iter iterator.Iterator[T], k int) []T {
+	return rSampleIterator(r, iter, k)
+}
+
+// VerifSampleStream is SampleStream with r as the random source.
+func VerifSampleStream[T any](
+	ctx context.Context,
+	r VerifRand,
+	s stream.Stream[T],
+	k int,
+) ([]T, error) {
+	return rSampleStream(ctx, r, s, k)
+}
